@@ -265,6 +265,7 @@ func runC07(r *Run, rng *Rng, thorough bool) {
 			}
 		})
 	}
+	renamedDispatch(r, rng, map[bool]int{false: 60, true: 1500}[thorough])
 }
 
 // c07Judge: the property's clauses on one decode result.
